@@ -313,7 +313,7 @@ def execute(hist):
             if h.id != ids[i] or not canon.typed_eq(canon.plain(h.statepoint()), sps[i]):
                 bad("handle-aliases-caller-mapping", f"handle {i} reports {h.id} / {h.statepoint()!r}")
         key = json.dumps({"ws": listed, "handles": sorted(handles), "mutated": sorted(i for i, c in callers.items() if "__mutated__" in c),
-                          "cache": sorted(p._sp_cache), "req": sorted(i for i, h in handles.items() if h._statepoint_requires_init)})
+                          "cache": sorted(getattr(p, "_sp_cache", ())), "req": sorted(i for i, h in handles.items() if getattr(h, "_statepoint_requires_init", None))})
     enabled = []
     for i in range(len(SPS)):
         if i not in handles:
